@@ -76,6 +76,11 @@ func newActiveTCPConn(
 					break
 				}
 			}
+
+			// The stream is over (closed by the peer, truncated or not framed correctly):
+			// let ReadFrom drain what was received and then fail, and release the connection.
+			_ = a.readBuffer.Close()
+			_ = conn.Close()
 		}()
 
 		buff := make([]byte, receiveMTU)
